@@ -56,6 +56,7 @@ func runC05(c *core.Ctx, r *core.Reporter) {
 	c05ovf(c, r)
 	c05int64(c, r)
 	c05canon(c, r)
+	c05bigarm(c, r)
 }
 
 // flowsToComparison: the value, possibly after further arithmetic, is an operand of a comparison.
